@@ -55,6 +55,7 @@ func mapOperator(d *dataTreeNavigator, context Context, expressionNode *Expressi
 			return Context{}, err
 		}
 		collected.Style = candidate.Style
+		collected.document, collected.filename, collected.fileIndex = candidate.GetDocument(), candidate.GetFilename(), candidate.GetFileIndex()
 
 		results.PushBack(collected)
 
